@@ -279,6 +279,9 @@ func runHistoryOracles(prop string, c *sx, hist string, st *oracleStats, add fun
 			}
 		case "C07":
 			checkUniqueness(after, hist, i, add, st)
+			if op == "update" && strings.Contains(reply, "DUP") {
+				checkUpdateRejection(before, call, hist, i, add, st)
+			}
 		case "C15":
 			checkIndexes(after, hist, i, add, st)
 		case "C08":
@@ -554,57 +557,129 @@ func checkUniqueness(cat *lungo.Catalog, hist string, at int, add func(sig, what
 				}
 				docs = append(docs, d)
 			}
-			tuplesOf := func(d bsonkit.Doc) [][]interface{} {
-				ts := [][]interface{}{{}}
-				for _, col := range *cf.Key {
-					vals := keysAt(*d, strings.Split(col.Key, "."))
-					// flatten one array level, empty array indexes as itself
-					var flat []interface{}
-					for _, v := range vals {
-						if a, ok := v.(bson.A); ok {
-							if len(a) == 0 && len(vals) == 1 {
-								flat = append(flat, a)
-							} else {
-								flat = append(flat, a...)
-							}
-						} else {
-							flat = append(flat, v)
-						}
-					}
-					if len(flat) == 0 {
-						flat = []interface{}{bsonkit.Missing}
-					}
-					var next [][]interface{}
-					for _, t := range ts {
-						for _, v := range flat {
-							next = append(next, append(append([]interface{}{}, t...), v))
-						}
-					}
-					ts = next
-				}
-				return ts
+			if d1, d2, found := duplicatePair(cf, docs); found {
+				add("C07:duplicate-key:"+name, fmt.Sprintf("two documents of %s share a key of unique index %s", h.String(), name), hist, at, []string{enc(*d1), enc(*d2)})
+				return
 			}
-			for i := 0; i < len(docs); i++ {
-				for j := i + 1; j < len(docs); j++ {
-					for _, t1 := range tuplesOf(docs[i]) {
-						for _, t2 := range tuplesOf(docs[j]) {
-							eq := true
-							for k := range t1 {
-								if bsonkit.Compare(t1[k], t2[k]) != 0 {
-									eq = false
-									break
-								}
-							}
-							if eq {
-								add("C07:duplicate-key:"+name, fmt.Sprintf("two documents of %s share a key of unique index %s", h.String(), name), hist, at, []string{enc(*docs[i]), enc(*docs[j])})
-								return
-							}
+		}
+	}
+}
+
+// duplicatePair searches the documents (already restricted to the ones the
+// partial filter covers) for two that share a key tuple of the index.
+func duplicatePair(cf mongokit.IndexConfig, docs []bsonkit.Doc) (bsonkit.Doc, bsonkit.Doc, bool) {
+	tuplesOf := func(d bsonkit.Doc) [][]interface{} {
+		ts := [][]interface{}{{}}
+		for _, col := range *cf.Key {
+			vals := keysAt(*d, strings.Split(col.Key, "."))
+			// flatten one array level, empty array indexes as itself
+			var flat []interface{}
+			for _, v := range vals {
+				if a, ok := v.(bson.A); ok {
+					if len(a) == 0 && len(vals) == 1 {
+						flat = append(flat, a)
+					} else {
+						flat = append(flat, a...)
+					}
+				} else {
+					flat = append(flat, v)
+				}
+			}
+			if len(flat) == 0 {
+				flat = []interface{}{bsonkit.Missing}
+			}
+			var next [][]interface{}
+			for _, t := range ts {
+				for _, v := range flat {
+					next = append(next, append(append([]interface{}{}, t...), v))
+				}
+			}
+			ts = next
+		}
+		return ts
+	}
+	for i := 0; i < len(docs); i++ {
+		for j := i + 1; j < len(docs); j++ {
+			for _, t1 := range tuplesOf(docs[i]) {
+				for _, t2 := range tuplesOf(docs[j]) {
+					eq := true
+					for k := range t1 {
+						if bsonkit.Compare(t1[k], t2[k]) != 0 {
+							eq = false
+							break
 						}
+					}
+					if eq {
+						return docs[i], docs[j], true
 					}
 				}
 			}
 		}
 	}
+	return nil, nil, false
+}
+
+// checkUpdateRejection: exactness of uniqueness rejections for plain updates
+// (no session, no upsert). When the call reported a duplicate key, the final
+// state it would have produced is recomputed independently (Match + Apply on
+// private copies); if no unique index has a duplicate in that state, the
+// rejection was spurious: a write that creates no duplicate pair must not be
+// rejected for uniqueness, whatever the order in which documents are processed.
+func checkUpdateRejection(before *lungo.Catalog, call *sx, hist string, at int, add func(sig, what, hist string, at int, detail interface{}), st *oracleStats) {
+	defer func() { recover() }()
+	if len(call.list) < 9 || call.list[1].atom != "0" || call.list[7].atom != "F" || len(call.list[8].list) > 0 {
+		return
+	}
+	h := lungo.Handle{unhx(call.list[2].atom), unhx(call.list[3].atom)}
+	c := before.Namespaces[h]
+	if c == nil {
+		return
+	}
+	filter, _ := decValue(call.list[5]).(bson.D)
+	update, _ := decValue(call.list[6]).(bson.D)
+	many := call.list[4].atom == "many"
+	var final []bsonkit.Doc
+	done := false
+	for _, d := range c.Documents.List {
+		ok, err := mongokit.Match(d, &filter)
+		if err != nil {
+			return
+		}
+		if !ok || (done && !many) {
+			final = append(final, d)
+			continue
+		}
+		done = true
+		nd := bsonkit.Clone(d)
+		if _, err := mongokit.Apply(nd, &filter, bsonkit.Clone(&update), false, nil); err != nil {
+			return
+		}
+		if bsonkit.Compare(bsonkit.Get(nd, "_id"), bsonkit.Get(d, "_id")) != 0 {
+			return
+		}
+		final = append(final, nd)
+	}
+	st.Dist["update-rejections-rechecked"]++
+	for _, ix := range c.Indexes {
+		cf := ix.Config()
+		if !cf.Unique {
+			continue
+		}
+		var docs []bsonkit.Doc
+		for _, d := range final {
+			if cf.Partial != nil {
+				ok, err := mongokit.Match(d, cf.Partial)
+				if err != nil || !ok {
+					continue
+				}
+			}
+			docs = append(docs, d)
+		}
+		if _, _, found := duplicatePair(cf, docs); found {
+			return
+		}
+	}
+	add("C07:update-rejected-without-duplicate", "an update was rejected with a duplicate key error although the state it produces has no two documents sharing a key of a unique index", hist, at, nil)
 }
 
 // ---- C15: index = rebuild ----
